@@ -221,7 +221,7 @@ func init() {
 			for _, n := range []string{"graph.CliqueNumber", "graph.IndependenceNumber", "graph.AllMaximalCliques", "graph.ChromaticNumber", "graph.IsKColorable", "graph.ChromaticIndex", "graph.GreedyColor", "graph.IsProperColouring", "graph.Degeneracy"} {
 				noWrites(c, ro, c.Fn(n), []int{0}, "its graph argument")
 			}
-			em := &RuleResult{Rule: "EMIT", Doc: "a clique sent on the result channel is never written again: every write that may reach a sent backing array goes through the current iteration's own allocation and cannot follow a send without a new allocation", MinInst: 2}
+			em := &RuleResult{Rule: "EMIT", Doc: "a clique sent on the result channel is never written again: every write that may reach a sent backing array goes through the current iteration's own allocation and cannot follow a send without a new allocation", MinInst: 1}
 			ruleEmit(c, em, "graph.AllMaximalCliques")
 			return []*RuleResult{lv, ro, em}
 		},
